@@ -26,15 +26,21 @@ META = dict(
 ADV_ID = bytes.fromhex("aabbccddeeff")
 DEV_ID = "aa:bb:cc:dd:ee:ff"
 OTHER_ID = bytes.fromhex("112233445566")
+ADV_ID_B = bytes.fromhex("a1b2c3d4e5f6")
+DEV_ID_B = "a1:b2:c3:d4:e5:f6"
+KEY_B = C.det_bytes("c18", "bcast-neighbour")
 KEY = C.det_bytes("c18", "bcast")
 WRONG_KEY = C.det_bytes("c18", "wrong")
 CHARS = {9: "bool", 10: "uint8", 11: "uint16", 12: "uint32", 13: "uint64", 14: "int", 15: "float", 16: "string"}
 FMT = {"bool": "?", "uint8": "B", "uint16": "H", "uint32": "I", "uint64": "Q", "int": "i", "float": "f"}
 
 
-def accessories():
+CHARS2 = {9: "uint8", 10: "bool", 11: "float", 13: "uint32", 14: "uint16", 15: "uint8", 16: "string", 17: "int"}  # after a configuration change: other formats, iid 12 gone, 17 new
+
+
+def accessories(table=None):
     chars = [{"iid": 2, "type": "23", "perms": ["pr"], "format": "string", "value": "Acc"}]
-    svc2 = [{"iid": i, "type": f"{0x100 + i:X}", "perms": ["pr", "pw", "ev"], "format": f} for i, f in CHARS.items()]
+    svc2 = [{"iid": i, "type": f"{0x100 + i:X}", "perms": ["pr", "pw", "ev"], "format": f} for i, f in (table or CHARS).items()]
     return [{"aid": 1, "services": [{"iid": 1, "type": "3E", "characteristics": chars}, {"iid": 8, "type": "43", "characteristics": svc2}]}]
 
 
@@ -62,12 +68,24 @@ class Rig:
         self.log = []
         self.pairing.dispatcher_connect(lambda ev: self.log.append(dict(ev)))
         self.model_last = last
+        self.chars = dict(CHARS)
+        # a second accessory paired on the same controller, with its own key and identifiers, at the same state number
+        cache.async_create_or_update_map(DEV_ID_B.upper(), 1, accessories(), KEY_B.hex(), last)
+        self.pairing_b = self.controller.load_pairing("neighbour", {"Connection": "BLE", "AccessoryPairingID": DEV_ID_B.upper(), "AccessoryAddress": "00:11:22:33:44:66",
+                                                                   "AccessoryLTPK": "00" * 32, "iOSPairingId": "x", "iOSDeviceLTSK": "00" * 32, "iOSDeviceLTPK": "00" * 32})
+        self.log_b = []
+        self.pairing_b.dispatcher_connect(lambda ev: self.log_b.append(dict(ev)))
+        self.model_last_b = last
+        self.neighbour_payloads = []
 
-    def feed(self, data: bytes):
+    def state_b(self):
+        return (self.pairing_b.description.state_num if self.pairing_b.description else None, len(self.log_b))
+
+    def feed(self, data: bytes, address="00:11:22:33:44:55"):
         from bleak.backends.device import BLEDevice
         from bleak.backends.scanner import AdvertisementData
 
-        dev = BLEDevice("00:11:22:33:44:55", "Acc", {})
+        dev = BLEDevice(address, "Acc", {})
         adv = AdvertisementData(local_name="Acc", manufacturer_data={76: data}, service_data={}, service_uuids=[], tx_power=None, rssi=-60, platform_data=())
         self.controller._device_detected(dev, adv)
         self.loop.run_until_idle()
@@ -123,13 +141,17 @@ def build(sym, last, arg=None):
         return adv_bytes(bytes(h), seal(g, g, iid, val)), dict(authentic=False, gsn=g)
     if sym == "unknown-iid":
         return adv_bytes(ADV_ID, seal(g, g, 999, val)), dict(authentic=True, inner_ok=True, gsn=g, iid=999, value8=val, unknown_iid=True)
+    if sym in ("+1:iid12", "+1:iid15"):
+        iid = int(sym[-2:])
+        val = struct.pack("<f", 21.5) + bytes(4) if iid == 15 else struct.pack("<Q", 55)
+        return adv_bytes(ADV_ID, seal(g, g, iid, val)), dict(authentic=True, inner_ok=True, gsn=g, iid=iid, value8=val)
     if sym == "value":
         iid, val = arg
         return adv_bytes(ADV_ID, seal(g, g, iid, val)), dict(authentic=True, inner_ok=True, gsn=g, iid=iid, value8=val)
     raise core.HarnessError(sym)
 
 
-SYMS = ["+1", "+2", "+50", "+99", "same", "-1", "-5", "+100", "+150", "wrong-key", "other-adv-id-aad", "other-header-id", "foreign-id-consistent", "inner-mismatch", "inner-mismatch-old", "unknown-iid", "old:0", "old:1", "old:40", "old:98", "empty-payload"]
+SYMS = ["+1", "+2", "+50", "+99", "same", "-1", "-5", "+100", "+150", "wrong-key", "other-adv-id-aad", "other-header-id", "foreign-id-consistent", "inner-mismatch", "inner-mismatch-old", "unknown-iid", "old:0", "old:1", "old:40", "old:98", "empty-payload", "neighbour:+1", "cross:from-neighbour", "db-swap", "+1:iid12", "+1:iid15"]
 
 
 def _utf8(b):
@@ -143,7 +165,42 @@ def _utf8(b):
 def step(rig: Rig, sym, arg=None):
     """Apply one symbol to the real code and judge it against the model.  -> (violations, applied?)"""
     last = rig.model_last
-    b = build(sym, last, arg)
+    if sym == "neighbour:+1":
+        # a genuine next broadcast of the OTHER accessory: it is that pairing's business alone
+        g = rig.model_last_b + 1
+        if g > 0xFFFF:
+            return [], False
+        payload = seal(g, g, 10, struct.pack("<Q", 0x77), key=KEY_B, aad=ADV_ID_B)
+        before, before_b = rig.state(), rig.state_b()
+        try:
+            rig.feed(adv_bytes(ADV_ID_B, payload), address="00:11:22:33:44:66")
+        except Exception as e:  # noqa: BLE001
+            return [(f"scanner-callback-raises:{type(e).__name__}:neighbour", {"sym": sym, "err": str(e)[:160]})], True
+        out = []
+        if rig.state() != before:
+            out.append(("neighbours-notification-changes-this-pairing", {"sym": sym, "before": before, "after": rig.state()}))
+        if rig.state_b()[0] != g or rig.state_b()[1] != before_b[1] + 1:
+            out.append(("genuine-next-notification-rejected:neighbour", {"sym": sym, "state": rig.state_b()}))
+        rig.model_last_b = g
+        rig.neighbour_payloads.append((g, payload))
+        return out, True
+    if sym == "db-swap":
+        # the accessory's configuration changed and its database was fetched again: from now on broadcasts are decoded against the NEW one
+        rig.chars = dict(CHARS2) if rig.chars == CHARS else dict(CHARS)
+        before = rig.state()
+        rig.pairing.restore_accessories_state(accessories(rig.chars), (rig.pairing.config_num or 1) + 1, KEY, rig.pairing.state_num)
+        rig.loop.run_until_idle()
+        if rig.state() != before:
+            return [("database-replacement-changes-state-number-or-notifies", {"before": before, "after": rig.state()})], True
+        return [], True
+    if sym == "cross:from-neighbour":
+        # the neighbour's latest genuine payload, byte for byte, presented under THIS accessory's advertising identifier and address
+        if not rig.neighbour_payloads:
+            return [], False
+        g, payload = rig.neighbour_payloads[-1]
+        b = (adv_bytes(ADV_ID, payload), dict(authentic=False, gsn=g))
+    else:
+        b = build(sym, last, arg)
     if b is None:
         return [], False
     data, m = b
@@ -159,7 +216,7 @@ def step(rig: Rig, sym, arg=None):
     after = rig.state()
     new = rig.log[nlog:]
     legit = m["authentic"] and m.get("inner_ok") and m["gsn"] > last
-    undeliverable = m.get("unknown_iid") or (m.get("iid") == 16 and not _utf8(m.get("value8", b"")))
+    undeliverable = m.get("unknown_iid") or m.get("iid") not in rig.chars or (m.get("iid") == 16 and not _utf8(m.get("value8", b"")))
     accepted = bool(new) or after[0] != before[0]
     if accepted and not legit:
         why = "forged" if not m["authentic"] else ("inner-counter-mismatch" if not m.get("inner_ok") else "stale")
@@ -172,7 +229,7 @@ def step(rig: Rig, sym, arg=None):
             rig.model_last = m["gsn"]
     elif accepted and legit:
         iid, v8 = m["iid"], m["value8"]
-        fmt = CHARS.get(iid)
+        fmt = rig.chars.get(iid)
         if len(new) != 1 or list(new[0].keys()) != [(1, iid)]:
             out.append(("accepted-notification-delivered-under-wrong-key-or-not-once", dict(det, log=new)))
         elif fmt in FMT:
@@ -203,6 +260,11 @@ def case_history(p):
 CASES = {"history": case_history}
 
 
+def seen_iids(rig):
+    """iids for which a broadcast was accepted so far (what a per-iid memo inside the pairing could hold): part of the canonical state"""
+    return {k[1] for ev in rig.log for k in ev}
+
+
 def _bfs(item, seed, tier):
     """BFS over histories from one base state; prune on canonical state (state_num, log length parity is irrelevant: state_num only)."""
     acc = core.Acc()
@@ -228,7 +290,7 @@ def _bfs(item, seed, tier):
                         acc.violation(sig, "history", {"base": base, "history": [list(x) for x in h2]}, detail)
                     acc.case(key=("h", base, h2), outcome="violation" if v else f"last={'moved' if rig.model_last != base else 'same'}", sample={"base": base, "history": [s for s, _ in h2]})
                     acc.traces += 1
-                    key = (rig.state()[0], rig.model_last)
+                    key = (rig.state()[0], rig.model_last, rig.state_b()[0], rig.model_last_b, len(rig.neighbour_payloads) > 0, rig.chars == CHARS, tuple(sorted(seen_iids(rig))))
                     if v or key in seen:
                         continue
                     seen[key] = h2
@@ -263,6 +325,9 @@ def run(ctx):
     bases = [1, 300, 65000, 65437, 65500, 65535] if quick else [1, 2, 7, 99, 300, 40000, 65436, 65437, 65438, 65500, 65534, 65535]
     depth = 2 if quick else 7
     work = [(b, depth, SYMS) for b in bases]
+    # deeper on the symbols that carry state across steps (database replacement, the neighbour pairing, per-characteristic history)
+    CARRY = ["+1", "+1:iid12", "+1:iid15", "db-swap", "neighbour:+1", "cross:from-neighbour", "same", "old:1", "unknown-iid"]
+    work += [(b, 4 if quick else 6, CARRY) for b in ([300] if quick else [1, 300, 65500])]
     ctx.pmap(_bfs, work)
     flips = []
     for b in bases:
